@@ -62,7 +62,10 @@ ExplainsTotal(e) ==
 (***************************************************************************)
 ExplainsDump(e) ==
     LET es == Entries(e.lists)
-    IN  /\ Len(e.classes) = Len(es)
+    IN  IF e.whole_fail
+        THEN e.item_equal /\ e.same_whole     \* nothing was generated, so there is nothing to dump: same error, same item
+        ELSE
+        /\ Len(e.classes) = Len(es)
         /\ e.item_equal
         /\ \A i \in DOMAIN es :
               /\ e.classes[i] = EntryClass(e.built[i], es[i].dump)
